@@ -398,9 +398,23 @@ class Col(enum.IntEnum):
     RED = 1
 class Label(str): pass
 class Raw(bytes): pass
+class Color(str, enum.Enum):
+    RED = "red"
+class Shout(str):
+    def __str__(self): return "SHOUT!"
 G_F, G_E, G_S, G_B = GeV(30.5), Col.RED, Label("a'b"), Raw(b"x")
+import types, math
+CFG = types.SimpleNamespace(thr=GeV(2.5), flag=Col.RED, colour=Color.RED)
+class Conf:
+    FLAG = Col.RED
+    NAME = Shout("quiet")
 def build(ds, c0):
     return ds.Select(lambda e: e.f(G_F, G_E, G_S, G_B, c0)), ds.Where(lambda e: e.jets.Select(lambda j: j.pt > G_F).Count() > G_E)
+def build_attr(ds):
+    colour = Color.RED
+    return ds.Select(lambda e: e.f(CFG.thr, CFG.flag, CFG.colour, Conf.FLAG, Conf.NAME, colour))
+def build_module(ds):
+    return ds.Select(lambda e: e.f(math))
 '''
 
 
@@ -427,6 +441,104 @@ def subclass_scalars(ctx):
         astx.parse_expr(text)
     except SyntaxError:
         ctx.violation("subclass-scalar:not-a-plain-literal", f"the recorded Where lambda does not read back: {text[:160]}", {"subclass": True})
+    # the same kinds of value reached through an attribute of a captured object / class, and a (str, Enum) member whose
+    # str() is not its value
+    try:
+        s3 = m.build_attr(m.DS())
+        want = [(float, 2.5), (int, 1), (str, "red"), (int, 1), (str, "quiet"), (str, "red")]
+        for a, (t, v) in zip(s3.query_ast.args[1].body.args, want):
+            ctx.count("subclass-scalar-captures")
+            if not (isinstance(a, ast.Constant) and type(a.value) is t and a.value == v):
+                ctx.violation("subclass-scalar:not-a-plain-literal", f"captured {v!r} held in a subclass of {t.__name__} (through an attribute): the query holds {ast.dump(a)[:120]}", {"subclass": True})
+                break
+    except Exception as e:
+        ctx.violation(f"subclass-scalar:exc:{type(e).__name__}", f"attribute route: {type(e).__name__}: {str(e)[:160]}", {"subclass": True})
+    # a bare module is no transportable value
+    try:
+        s4 = m.build_module(m.DS())
+        ctx.violation("non-transportable-capture-accepted", f"a captured module object was accepted: {astx.unparse(s4.query_ast.args[1])[:120]}", {"subclass": True})
+    except ValueError:
+        ctx.count("refused-non-transportable")
+    except Exception as e:
+        ctx.violation(f"subclass-scalar:exc:{type(e).__name__}", f"module capture: {type(e).__name__}: {str(e)[:160]}", {"subclass": True})
+    modgen.unload(m)
+
+
+OBJECT_SRC = modgen.DS_HEADER + '''
+import enum, dataclasses
+THR = {"pt": 30.0}
+RUNS = [3, 5, 8]
+@dataclasses.dataclass
+class Cuts:
+    pt: float = 20.0
+    def scaled(self, k): return self.pt * k
+CUTS = Cuts()
+class Selector:
+    def __init__(self, pt, bank): self.pt, self.bank = pt, bank
+    def __call__(self, x): return x
+SEL = Selector(30.0, "AntiKt4")
+def helper(x): return x
+helper.cut = 12.5
+class Tone(enum.Enum):
+    LOW = 1
+Tone.DEFAULT_PT = 30.0
+def method_of_dict(ds): return ds.Where(lambda e: e.pt > THR.get("pt"))
+def method_of_list(ds): return ds.Select(lambda e: RUNS.index(e.run))
+def method_of_instance(ds): return ds.Where(lambda e: e.pt > CUTS.scaled(2))
+def method_of_closure_dict(ds):
+    local_map = {"a": 1}
+    return ds.Select(lambda e: e.x + local_map.get("a"))
+def method_nested(ds): return ds.Select(lambda e: e.jets.Select(lambda j: j.pt * CUTS.scaled(j.n)))
+def attr_of_callable(ds): return ds.Select(lambda e: e.f(SEL.pt, SEL.bank, helper.cut))
+def attr_of_callable_nested(ds): return ds.Select(lambda e: e.jets.Where(lambda j: j.pt > SEL.pt))
+def enum_class_constant(ds): return ds.Select(lambda e: e.f(Tone.DEFAULT_PT, Tone.__name__))
+def shadowed_callable(ds): return ds.Select(lambda SEL: SEL.pt)
+'''
+
+
+def object_routes(ctx):
+    """captured objects that are no values themselves: a method called on one cannot be sent (ValueError, never a query that still
+    names the variable); an attribute of one that happens to be callable too is a value like any other, frozen at the call"""
+    m = modgen.load(OBJECT_SRC, "c04obj")
+    w = {"objects": True}
+    for name in ("method_of_dict", "method_of_list", "method_of_instance", "method_of_closure_dict", "method_nested"):
+        ctx.case(f"object-route:{name}", True)
+        try:
+            s = getattr(m, name)(m.DS())
+        except ValueError:
+            ctx.count("refused-non-transportable")
+            continue
+        except Exception as e:
+            ctx.violation(f"object-route:exc:{type(e).__name__}", f"{name}: {type(e).__name__}: {str(e)[:160]}", w)
+            continue
+        lam = s.query_ast.args[1]
+        free = sorted(astx.free_names(lam) & {"THR", "RUNS", "CUTS", "local_map"})
+        if free:
+            ctx.violation("captured-name-left-in-query", f"{name}: no ValueError and the recorded lambda still names {free}: {astx.unparse(lam)[:160]}", w)
+    for name, want in (("attr_of_callable", [30.0, "AntiKt4", 12.5]), ("enum_class_constant", [30.0, "Tone"])):
+        ctx.case(f"object-route:{name}", True)
+        try:
+            s = getattr(m, name)(m.DS())
+        except Exception as e:
+            ctx.violation(f"object-route:exc:{type(e).__name__}", f"{name}: {type(e).__name__}: {str(e)[:160]}", w)
+            continue
+        # the history afterwards: none of it reaches the query
+        m.SEL.pt, m.SEL.bank, m.helper.cut, m.Tone.DEFAULT_PT = 99.0, "later", -1.0, -2.0
+        got = [a.value if isinstance(a, ast.Constant) else astx.unparse(a) for a in s.query_ast.args[1].body.args]
+        m.SEL.pt, m.SEL.bank, m.helper.cut, m.Tone.DEFAULT_PT = 30.0, "AntiKt4", 12.5, 30.0
+        ctx.count("object-attribute-captures", len(want))
+        if got != want:
+            ctx.violation("captured-attribute-not-frozen", f"{name}: values at the call {want}, the query holds {got}", w)
+    for name, want in (("attr_of_callable_nested", "lambda e: e.jets.Where(lambda j: j.pt > 30.0)"), ("shadowed_callable", "lambda SEL: SEL.pt")):
+        ctx.case(f"object-route:{name}", True)
+        try:
+            s = getattr(m, name)(m.DS())
+            got = astx.unparse(s.query_ast.args[1])
+        except Exception as e:
+            ctx.violation(f"object-route:exc:{type(e).__name__}", f"{name}: {type(e).__name__}: {str(e)[:160]}", w)
+            continue
+        if got != want:
+            ctx.violation("captured-attribute-not-frozen" if "nested" in name else "parameter-replaced", f"{name}: recorded {got}, expected {want}", w)
     modgen.unload(m)
 
 
@@ -434,6 +546,7 @@ def shard_main(ctx):
     if ctx.shard == 0:
         comprehension_scope(ctx)
         subclass_scalars(ctx)
+        object_routes(ctx)
     for f in range(N_FILES[ctx.tier]):
         if ctx.out_of_time():
             ctx.count("stopped-by-time-budget")
@@ -461,6 +574,9 @@ def shard_main(ctx):
 
 
 def replay(ctx, witness):
+    if witness.get("objects"):
+        object_routes(ctx)
+        return
     if witness.get("subclass"):
         subclass_scalars(ctx)
         return
